@@ -228,6 +228,10 @@ def evaluate(pid, cases, oc=None, compare_outside_domain=False):
                 if len(oc.samples) < 6 and (len(oc.nontrivial) % 97 == 1 or len(oc.samples) < 2):
                     oc.samples.append({'label': c['label'], 'ro': ro_text, 'msg': msg_text,
                                        'outcome': {'err': o['err'], 'warns': o['warns']}})
+    if pid in ('C02', 'C05', 'C06', 'C12'):
+        sample = [(c, t, o) for c, t, o in zip(cases, texts, impl_obs) if 'err' in o and 'impl' not in c and (o['err'] or o['warns'])]
+        rest = [(c, t, o) for c, t, o in zip(cases, texts, impl_obs) if 'err' in o and 'impl' not in c and not (o['err'] or o['warns'])]
+        flags_route(oc, pid, sample[::max(1, len(sample) // 500)] + rest[::max(1, len(rest) // 200)])
     if pid == 'C04':
         file_route(oc)
     if pid == 'C06':
@@ -278,6 +282,43 @@ def history_level(oc, pid, cases):
                                            'model': {'err': r['model']['err'], 'warns': r['model']['warns'], 'ro_text': TJ.to_text(r['model']['ro'])}})
             state[hid] = nxt
         depth += 1
+
+
+def flags_route(oc, pid, triples):
+    """Interpreter configuration is not an input: the same (running order, message) pairs in a fresh `python -O`
+    interpreter, and in a fresh `python -W always` interpreter whose warning filters are left as the interpreter and
+    the library's import set them, must give what this process observed (error, warnings, resulting document)."""
+    import os, shutil, subprocess, sys, tempfile
+    from .lean import InfraError, VERIF
+    if not triples:
+        return
+    pairs = [[rt, mt] for _, (rt, mt), _ in triples]
+    tmp = tempfile.mkdtemp(prefix='mrm-flags-')
+    try:
+        inp = os.path.join(tmp, 'in.json')
+        with open(inp, 'w') as f:
+            json.dump(pairs, f)
+        env = dict(os.environ, PYTHONPATH=VERIF, PYTHONDONTWRITEBYTECODE='1')
+        for name, flags, extra in (('python -O', ['-O'], []), ('python -W always (ambient filters)', ['-W', 'always'], ['ambient'])):
+            outp = os.path.join(tmp, 'out.json')
+            p = subprocess.run([sys.executable] + flags + ['-m', 'harness.sub_merge', inp, outp] + extra, cwd=VERIF, env=env,
+                               stdout=subprocess.PIPE, stderr=subprocess.STDOUT, text=True, timeout=1200)
+            if p.returncode != 0:
+                oc.disagreements.append({'kind': 'flags', 'what': f'the library could not be used under {name}', 'impl': p.stdout[-1200:]})
+                continue
+            with open(outp) as f:
+                res = json.load(f)['results']
+            for (c, (rt, mt), o), r in zip(triples, res):
+                oc.evaluations += 1
+                oc.count('flags:' + name.split(' ')[1])
+                here = {'err': o['err'], 'warns': o['warns'], 'text': TJ.to_text(o['ro'])}
+                if r != here and not ('\r' in (r['text'] or '') or '\r' in here['text']):
+                    oc.failing.append({'kind': 'add', 'label': c['label'] + f':under {name}', 'cls': c['cls'], 'ro_text': rt, 'msg_text': mt,
+                                       'flags_route': name, 'spec': f'the outcome under {name} differs from the outcome in the default configuration',
+                                       'impl': {'default': {k: (v[:800] if isinstance(v, str) else v) for k, v in here.items()},
+                                                name: {k: (v[:800] if isinstance(v, str) else v) for k, v in r.items()}}})
+    finally:
+        shutil.rmtree(tmp, ignore_errors=True)
 
 
 def file_route(oc):
@@ -401,6 +442,12 @@ def c07_extra(o):
 def replay_add(pid, rec):
     """Re-run one recorded (ro_text, msg_text) on the current tree; returns (still_failing, detail)."""
     from . import lean
+    if 'flags_route' in rec:
+        oc2 = Outcome(pid)
+        o = _impl_one((rec['ro_text'], rec['msg_text']))
+        if 'err' in o:
+            flags_route(oc2, pid, [({'label': 'replay', 'cls': rec.get('cls', '?')}, (rec['ro_text'], rec['msg_text']), o)])
+        return bool(oc2.failing), {'failing': [f['impl'] for f in oc2.failing]}
     if 'file_route' in rec:
         oc2 = Outcome(pid)
         file_route(oc2)
